@@ -104,6 +104,54 @@ func loadedField(e *PPA, st *State, rv RV) (RV, *types.Var) {
 }
 
 // NewLockAudit analyses all non-test functions of pkg.
+// lockOwnerReads: guarded field -> functions in which an unguarded READ is accepted because they run
+// only on the goroutine of the field's single writer chain (every store to the field is in one of these
+// functions, all of them are reachable only synchronously from one entry point): a goroutine does not race
+// with its own earlier writes, and the other goroutines only read.  Set by a rule around its audit.
+var lockOwnerReads = map[*types.Var]map[*ssa.Function]bool{}
+
+// ownerChain computes such a function set for field fld and entry point entry, or nil when a store to
+// the field lies outside the entry's synchronous static closure or a member is also called from outside.
+func ownerChain(P *Prog, pkg string, entry *ssa.Function, fld *types.Var) map[*ssa.Function]bool {
+	set := map[*ssa.Function]bool{}
+	for _, g := range staticClosure(entry) {
+		set[g] = true
+	}
+	for _, f := range P.PkgFuncs(pkg) {
+		if P.InTestFile(f) {
+			continue
+		}
+		for _, g := range withAnon(f) {
+			bad := false
+			instrs(g, func(in ssa.Instruction) {
+				if st, ok := in.(*ssa.Store); ok && fieldOf(st.Addr) == fld && !set[g] {
+					bad = true
+				}
+				if _, isGo := in.(*ssa.Go); isGo && set[g] {
+					// a goroutine started inside the chain is not on the owner's goroutine
+					if cal := staticCallee(in.(*ssa.Go).Common()); cal != nil && set[cal] {
+						bad = true
+					}
+				}
+				if ci, ok := in.(ssa.CallInstruction); ok && !set[g] {
+					if cal := staticCallee(ci.Common()); cal != nil && set[cal] && cal != entry {
+						bad = true // a member with a caller outside the chain
+					}
+				}
+			})
+			if bad {
+				return nil
+			}
+		}
+	}
+	for g := range set {
+		if g != entry && g.Parent() == nil && isExportedFn(g) {
+			return nil
+		}
+	}
+	return set
+}
+
 func NewLockAudit(c *Ctx, pkg string, guards map[*types.Var]*types.Var, maxVisits int, foreign ...*types.Var) *LockAudit {
 	return newLockAudit(c, pkg, guards, maxVisits, false, foreign...)
 }
@@ -602,6 +650,10 @@ func (la *LockAudit) local() {
 				}
 				if fresh(base) {
 					la.Guarded++ // object not yet published (allocated in this activation)
+					return
+				}
+				if !write && lockOwnerReads[field][f] {
+					la.Guarded++ // read by the only goroutine that ever writes the field (see lockOwnerReads)
 					return
 				}
 				mode := byte('R')
